@@ -269,6 +269,22 @@ func (c *Ctx) keyedWrites(rule string, fi *load.FuncInfo) int {
 			okSrc := !zero
 			for _, x := range reaching {
 				val := encOf[x][u.buf]
+				// an id read once into a local (deletedID := inputID.Id; lastseenID+1): judged by what the local holds
+				for k := 0; k < 3; k++ {
+					base := ast.Unparen(stripConv(info, val))
+					if be, isBE := base.(*ast.BinaryExpr); isBE {
+						base = ast.Unparen(be.X)
+					}
+					id, isID := base.(*ast.Ident)
+					if !isID {
+						break
+					}
+					d := uniqueDef(info, fi.Node(), id)
+					if d == nil {
+						break
+					}
+					val = d
+				}
 				mentionsInput := false
 				for _, p := range params {
 					if p != nil && astx.Mentions(info, val, p) {
